@@ -77,6 +77,10 @@ package boltz
 //@   callpre[typed-against-the-referencing-store] PostProcess@1: ref(arg0) == symStoreOf(index.symbol)
 //@   callpre[cascade-deletes-through-the-referencing-store-in-this-context] DeleteById@1: ref(recv) == symStoreOf(index.symbol) && arg0 == ctx.Ctx
 //@   ensures[pending-error-does-nothing] old(holderFailed[ctx.ErrHolder]) ==> dbSame()
+//@   callpre[restrict-looks-at-the-referrers-selected-by-the-predicate] IterateValidIds@1: ref(recv) == symStoreOf(index.symbol) && arg1 == local(filter)
+//@   callpre[cascade-walks-the-referrers-selected-by-the-predicate] IterateValidIds@2: ref(recv) == symStoreOf(index.symbol) && arg1 == local(filter)
+//@   ensures[restrict-deletes-nothing] index.cascadeType == CascadeNone ==> dbSame()
+//@   lensures[restrict-refuses-a-referenced-entity] !old(holderFailed[ctx.ErrHolder]) && index.cascadeType == CascadeNone && idsMatch(symStoreOf(index.symbol), ref(local(filter)), bktHas, bktSub, bktVal) ==> holderFailed[ctx.ErrHolder]
 //@   waive pre#Current the id cursor's position after a delete under it is bbolt's concern (the code re-seeks to the current key); not part of this claim
 //@   waive pre#Seek the id cursor's position after a delete under it is bbolt's concern; not part of this claim
 //@   invariant 1: true
@@ -84,3 +88,14 @@ package boltz
 //@ immutable H.boltz.fkDeleteCascadeConstraint.symbol.typ
 //@ immutable H.boltz.fkDeleteCascadeConstraint.symbol.val
 //@ immutable H.boltz.fkDeleteCascadeConstraint.cascadeType
+
+// restrict: an entity that is still referenced through the set symbol cannot be deleted, and the check writes nothing
+//@ func NewReferenceByIdError
+//@   pure
+//@   ensures result != nil
+//@ func (*fkDeleteConstraint).ProcessBeforeDelete
+//@   props C04
+//@   nosafety
+//@   modifies *
+//@   ensures[database-untouched] dbSame()
+//@   lensures[a-referenced-entity-is-refused] !old(holderFailed[ctx.ErrHolder]) && rtHasElems(rtSymbol, str(ctx.RowId), bktHas, bktSub, bktVal) ==> holderFailed[ctx.ErrHolder]
